@@ -456,6 +456,12 @@ class Codec:
                 rule, f"{key}:writer-raises", w["raise"][1] or self.wwhere,
                 f"{what}: writer raises {w['raise'][0]}")
             return False
+        if rt.get("syntax"):
+            (ctx.violation if fragment else ctx.info)(
+                rule, f"{key}:not-in-the-language", self.wwhere,
+                f"{what}: the text written is not in the format's language - the recogniser reports {rt['syntax'][0]!r} "
+                f"(it recovers and goes on, so the model may still come back)")
+            return False
         if r is None or r["raise"]:
             why = r["raise"][0] if r else "nothing written"
             (ctx.violation if fragment else ctx.info)(
